@@ -117,6 +117,8 @@ class C02(Prop):
             for idx, rid, b in pending:
                 size = rng.choice([1, 10, 40, 80, 200, rng.randrange(1, 130), rng.randrange(1, 130), rng.randrange(1, 130)])
                 res = ['res', 'r' * size] if rng.random() < 0.7 else ['err', rng.choice([1, -32000]), 'e' * size]
+                if rng.random() < 0.12:
+                    res = ['bad']         # the handler's result cannot be JSON-encoded
                 ops.append(['send_result', idx, res])
                 meta.append({'kind': 'reply', 'id': rid, 'b': b, 'res': res})
             yield {'proto': pname, 'ops': ops, 'meta': meta}
@@ -162,6 +164,8 @@ class C02(Prop):
             # reply
             if 'protoerr' in o:
                 return 'send_result raised'
+            if o.get('unencodable_accepted'):
+                return 'send_result accepted a result that cannot be encoded'
             msg = o['msg']
             if me['b'] is None:
                 if msg is None:
@@ -197,7 +201,7 @@ class C02(Prop):
                         # size accounting: an entry that takes the response over the maximum is replaced
                         size += response_len(case['proto'], m) + 2
                         replaced = isinstance(e.get('error'), dict) and e['error'].get('code') == -32600 \
-                            and not (m['res'][0] == 'err' and m['res'][1] == -32600)
+                            and not (m['res'][0] == 'err' and len(m['res']) > 1 and m['res'][1] == -32600)
                         if mx and size > mx and not replaced:
                             return ('a batch response grew over the maximum response size without the entry that did so '
                                     'being replaced by an error entry')
@@ -228,11 +232,15 @@ def response_len(pname, me):
     from aiorpcx import jsonrpc
     P = {'v1': jsonrpc.JSONRPCv1}.get(pname, jsonrpc.JSONRPCv2)
     r = me['res']
+    if r[0] == 'bad':
+        r = ['err', -32603, 'internal server error']
     val = r[1] if r[0] == 'res' else jsonrpc.RPCError(r[1], r[2])
     return len(P.response_message(val, me['id']))
 
 
 def same_outcome(rep, res):
+    if res[0] == 'bad':
+        res = ['err', -32603, 'internal server error']
     if res[0] == 'res':
         return rep.get('result') == res[1]
     e = rep.get('error')
